@@ -324,6 +324,81 @@ def explore(case):
     return res
 
 
+def _generate(E, dest, opts):
+    with contextlib.redirect_stdout(io.StringIO()):
+        if E["kind"] == "single":
+            (nm, fns), = E["sets"].items()
+            E["gen"](fns, filename=E["files"][nm], dest_dir=dest, **opts)
+        else:
+            E["gen"](E["sets"], dest, **opts)
+    out = {}
+    for root, _, files in os.walk(dest):
+        for fn in sorted(files):
+            out[fn] = open(os.path.join(root, fn)).read()
+    return out
+
+
+def explore_sequence(case):
+    """history independence of the generators: all words of length 2 over the option sets followed by a default call must
+    give the same files as a first default call (options of one call must not leak into the next)"""
+    setname, tier = case["set"], case["tier"]
+    res = core.Result()
+    E = equation_sets()[setname]
+    tmp = tempfile.mkdtemp(prefix="c09s_", dir=os.environ.get("VERIF_SCRATCH") or None)
+    try:
+        k = 0
+        try:
+            base = _generate(E, os.path.join(tmp, "base"), {})
+        except Exception as ex:
+            res.count("evaluations")
+            res.fail(site=setname + ".generate_code", clause="generation_succeeds", cls="default", detail=dict(error=str(ex)[:300]), sub="seq", case=case)
+            return res
+        opt_list = [o for o in option_sets(E["kind"], "quick") if o]
+        words = [(a,) for a in opt_list] + ([(a, b) for a in opt_list for b in opt_list if a != b] if tier == "thorough" else [])
+        for w in words:
+            res.count("evaluations")
+            res.count("programs")
+            res.nontrivial.add(hash((setname, json_key(w))))
+            ok = True
+            for o in w:
+                k += 1
+                try:
+                    _generate(E, os.path.join(tmp, "w%d" % k), o)
+                except Exception:
+                    ok = False  # judged by the per-configuration sub-check
+            k += 1
+            try:
+                again = _generate(E, os.path.join(tmp, "w%d" % k), {})
+            except Exception as ex:
+                res.fail(site=setname + ".generate_code", clause="default_call_after_other_calls_succeeds", cls="sequence",
+                         detail=dict(previous=[dict(o) for o in w], error=str(ex)[:300]), sub="seq", case=case)
+                continue
+            res.outcomes.add(hash(tuple(sorted(again))))
+            if again != base:
+                diff = sorted(set(again) ^ set(base)) or [f for f in base if again.get(f) != base[f]]
+                res.fail(site=setname + ".generate_code", clause="output_depends_only_on_this_calls_options", cls="sequence",
+                         detail=dict(previous=[dict(o) for o in w], differing_files=diff[:6]), sub="seq", case=case)
+            shutil.rmtree(os.path.join(tmp, "w%d" % k), ignore_errors=True)
+    finally:
+        shutil.rmtree(tmp, ignore_errors=True)
+    res.samples.append(dict(set=setname, sequences=len(words)))
+    return res
+
+
+def json_key(w):
+    return tuple(tuple(sorted(o.items())) for o in w)
+
+
+class _Seq:
+    chunks = 1
+
+    def cases(self, tier, seed):
+        return [dict(sub="seq", set=n, tier=tier) for n in equation_sets()]
+
+    def run(self, case):
+        return explore_sequence(case)
+
+
 class _Sub:
     chunks = 1
 
@@ -345,5 +420,5 @@ class _Sub:
         return explore(case)
 
 
-SUBCHECKS = {"gen": _Sub()}
-REPLAY = {"gen": lambda c: explore(c).fails}
+SUBCHECKS = {"gen": _Sub(), "seq": _Seq()}
+REPLAY = {"gen": lambda c: explore(c).fails, "seq": lambda c: explore_sequence(c).fails}
